@@ -1,6 +1,7 @@
 /- `analyze` request: the whole analysis pipeline of the model, down to correction bytes. -/
 import Preflate.Driver.CodecWire
 import Preflate.Model.Chains
+import Preflate.Model.Stream
 import Preflate.Model.Estimator
 namespace Preflate.Driver
 open Preflate
@@ -11,14 +12,13 @@ def paramsOfVec (v : List Nat) : Option Params :=
       some ⟨st, hs, zc != 0, wb, alg, sh, mk, mtc, md3, vf != 0, mts != 0, lz != 0, good, ml, nice, chain, minLen, pol, lim⟩
   | _ => none
 
-/-- parse, parameter header, predictions, codec, bool coder -/
+/-- parse, parameter header, predictions (`decompressStream` of Model/Stream.lean — the function the
+    theorems of Props/C02 are about — with the given parameter vector in place of the estimator and
+    the executable predictor `Chains.pred`), then codec and bool coder -/
 def analyzeModel (p : Params) (d : List UInt8) : R (Nat × List Op × Array UInt8) := do
-  let parsed ← parse d
-  let hdr ← writeParams p
-  let body ← encStream (Chains.pred p) parsed.plain parsed.blocks parsed.eofPadding
-  let ops := hdr ++ body
-  let evs ← encodeOps 0 ops
-  pure (parsed.consumed d, ops, VP8.writeEvents evs)
+  let r ← decompressStream (fun _ _ => .ok p) Chains.pred false d
+  let evs ← encodeOps 0 r.corr
+  pure (r.size, r.corr, VP8.writeEvents evs)
 
 def analyzeLine (toks : List String) : String :=
   match toks.reverse with
